@@ -86,6 +86,11 @@ func runMemReadShard(c *hx.Ctx, r *hx.Rng, first, n int) error {
 		nRows := 1 + r.Intn(9)
 		var rows []engx.Row
 		shape := r.Intn(4) // 0: random order, 1: ascending with one late row, 2: strictly ascending, 3: descending
+		if r.Chance(20) {
+			// one chunk with more than 12 unsorted rows and repeated timestamps (the sort of the chunk must be stable)
+			nRows, shape = 13+r.Intn(24), 0
+			c.Count("memread:chunk>12rows")
+		}
 		for i := 0; i < nRows; i++ {
 			row := engx.Row{Mst: mst, Series: 0, Fields: map[string]string{}}
 			switch shape {
